@@ -221,6 +221,7 @@ fn replay_framing(path: &str, rep: &mut Report) {
                 let before = buf.len();
                 let out = decode_once(&mut buf);
                 rep.eval(q - a >= 2, hash_of(&(&stream[a..q], "d")));
+                rep.count(if exp_v == "Msg" { "dec_expect_msg" } else { "dec_expect_needmore" });
                 match (exp_v, &out) {
                     ("NeedMore", Out::None) => {
                         rep.count("dec_needmore");
@@ -393,8 +394,9 @@ fn replay_hostile(path: &str, rep: &mut Report) {
             rep.eval(true, hash_of(&b));
             rep.count("strings_len3");
             rep.count(&format!("verdict3:{}", verdict));
-            // a three-octet complete frame is never a well-formed envelope: the only reasons are "ber" or the root
-            let why = if verdict == "Bad" { if b[0] == 0x30 { "ber" } else { "root-not-sequence" } } else { "" };
+            // a complete three-octet frame is never a well-formed envelope: a constructed root cannot hold an element in
+            // one octet of contents ("ber"), a primitive root is not a SEQUENCE
+            let why = if verdict == "Bad" { if b[0] & 0x20 != 0 { "ber" } else { "root-not-sequence" } } else { "" };
             if let Some(key) = judge(verdict, why, false, 3, None, 3, &out, buf.len()) {
                 rep.mismatch(&key, json!({"kind": "str3", "bytes": hex(&b), "spec": {"verdict": verdict}, "impl": out.brief()}));
             }
@@ -1131,7 +1133,7 @@ fn e2e(out_path: &str, tier: &str, rep: &mut Report) {
         (vec![65534, 65535, 65536, 65537, 65538, 65539, 65540, 65541, 65542, 65543], 3),
         (vec![30, big, 7, 40], 3),
     ];
-    let extra = if thorough { 600 } else { 30 };
+    let extra = if thorough { 300 } else { 30 };
     for _ in 0..extra {
         let n = rng.gen_range(1..12);
         let sizes: Vec<usize> = (0..n)
